@@ -336,6 +336,39 @@ def call(fn, names):
 
 # --------------------------------------------------------------------------------------------
 
+LADDER = [5e-324, 1e-320, 1e-300, 1e-200, 1e-100, 1e-30, 1e-17, 1e-9, 1e9, 1e15, 1e17, 1e30, 1e100, 1e154, 1e155, 1e200,
+          1e300, 1e307, 1e308, 1.7976931348623157e308]
+
+
+class Extremes(Sub):
+    name = 'c16.extremes'
+    rule = ('every one-argument function x +-{smallest subnormal, 1e-320 .. 1e-9, 1e9 .. 1e308, largest double} as a variable: '
+            'where the defined real value is representable as a double it is returned to within rounding (an intermediate '
+            'overflow or a cancellation inside the formula used is no excuse), outside the domain an error; where the value '
+            'is not representable nothing is demanded; non-trivial = value or error demanded')
+    min_cases = 500
+    min_nontrivial = 300
+    min_classes = 10
+
+    def cases(self, tier, unit):
+        for fn in UNARY:
+            for m in LADDER:
+                for sgn in (1, -1):
+                    yield [fn, sgn * m]
+
+    def check(self, env, case):
+        fn, x = case
+        f = call(fn, ['xa'])
+        out = env.evo(f, {'xa': x})
+        exp = unary_expect(fn, x)
+        if exp[0] == 'in' and any(math.isinf(r) or math.isnan(r) for r in exp[1]):
+            exp = ('skip', 'not-representable')
+        if exp[0] != 'skip':
+            env.nt()
+            env.note('%s:%s' % (fn, exp[0]))
+        return judge(env, out, exp, '%s with xa=%r' % (f, x))
+
+
 class Unary(Sub):
     name = 'c16.unary'
     rule = ('every one-argument function x every grid value as variable and as literal, and x every '
@@ -1009,4 +1042,4 @@ class ElementarySiblings(Siblings):
     ]
 
 
-SUBS = [Unary(), Coercion(), Binary(), Atan2(), Identities(), Pv(), Rand(), RandBetween(), ElementarySiblings()]
+SUBS = [Unary(), Extremes(), Coercion(), Binary(), Atan2(), Identities(), Pv(), Rand(), RandBetween(), ElementarySiblings()]
